@@ -222,3 +222,29 @@ class Monitor:
     def take(self):
         t, self.trace = self.trace, []
         return t
+
+
+def equivariance_defect(apply, xb, grp, D, flags, lead=1, shifts_list=()):
+    """worst relative defect of apply(g.x) vs g.apply(x) over grp (and of shift-commutation over shifts_list).
+
+    apply(blocks, flags) -> blocks. Returns (defect, witness, block type, moved, nonzero)."""
+    base = apply(xb, flags)
+    worst = (0.0, None, None)
+    moved = nonzero = False
+    for g in grp:
+        got = apply(act_blocks(xb, g, D, lead=lead), perm_axes(flags, g))
+        exp = act_blocks(base, g, D, lead=lead)
+        for t in exp:
+            e = relerr(got[t], exp[t]) if t in got else np.inf
+            if e > worst[0]:
+                worst = (e, g, t)
+            if exp[t].shape != base[t].shape or not np.array_equal(exp[t], base[t]):
+                moved = True
+            nonzero = nonzero or bool(np.any(base[t] != 0))
+    for sh_in, sh_out in shifts_list:
+        got = apply({kp: np.roll(b, sh_in, axis=tuple(range(lead, lead + D))) for kp, b in xb.items()}, flags)
+        for t in base:
+            e = relerr(got[t], np.roll(base[t], sh_out, axis=tuple(range(lead, lead + D))))
+            if e > worst[0]:
+                worst = (e, ("shift", sh_in), t)
+    return worst, moved, nonzero
